@@ -1,5 +1,6 @@
 import WfModel.Lemmas.Wild
 import WfModel.Lemmas.RxScan
+import WfModel.Lemmas.Rx
 import WfModel.Generated
 
 /-!
@@ -13,9 +14,19 @@ Property theorems only. Models: `WfModel/Model/Wild.lean` (`rhs_types/wildcard.r
 loop of `wildcard::Wildcard::is_match` are third-party code. Here the wildcard *contract*
 (reference matcher = split specification, parser, validation order) and the engine's own
 quoted-regex scanner are proved; the third-party matchers are compared by the correspondence
-streams `wild` (exhaustive small alphabet) and `rx` (generated subset vs. a reference matcher
-and quoted/raw agreement) only. No derivative-based regex matcher is proved (`deriv_correct`
-of DESIGN.md is not claimed).
+streams `wild` (exhaustive small alphabet) and `rx`.
+
+Regex matching (`WfModel/Model/Rx.lean`): for a documented subset of the syntax the model
+contains a parser and a position-aware Brzozowski-derivative matcher; it is proved here to
+decide a declarative language semantics (`deriv_correct`, anchors `^` `$` included, for all
+regexes and words) and to be an unanchored search (`search_unanchored`); "byte-oriented,
+non-Unicode" is made precise (`dot_is_any_byte_but_newline`, `class_is_byte_set`,
+`hex_escape_is_byte`, `literal_char_utf8`, `perl_classes_ascii`) and plain literal patterns
+denote substring search (`parse_literal`). The driver answers the `rxm` lines of stream `rx`
+with this proved matcher, so the real engine (regex-automata, third party, *not* modelled)
+is compared with it on every generated pattern inside the subset; patterns outside the
+subset (`Rx.parse = none`) are `skip`. NOT proved: that `Rx.parse` agrees with
+`regex-syntax` on the subset (tied by the correspondence only).
 -/
 namespace WfModel.C11
 open WfModel.Wild WfModel.RxScan
@@ -201,5 +212,172 @@ example : escapeForQuoted ['[', 'a', '-', 'z', '"', '\\', ']', ']', '+', '\\', '
   decide
 example : scanQuoted ['[', 'a', '-', 'z', '"', '\\', ']', ']', '+', '\\', 'd', '{', '1', ',', '1', '0', '}', '\\', '"', '"', ';'] =
     some (['[', 'a', '-', 'z', '"', '\\', ']', ']', '+', '\\', 'd', '{', '1', ',', '1', '0', '}', '"'], [';']) := by decide
+
+/-! ## Regex matching on the modelled subset: a proved matcher
+
+`Rx.Matches r w s e` (declarative, `WfModel/Lemmas/Rx.lean`): the word `w` is in the language
+of `r` when `w` begins at the haystack start iff `s` and ends at the haystack end iff `e`. -/
+
+/-- **S `deriv_correct`.** The derivative matcher decides the declarative language — for
+every regex (anchors included), every word and every placement of the word in a haystack. -/
+theorem deriv_correct (r : Rx) (w : List UInt8) (s e : Bool) :
+    Rx.matchesFrom r w s e = true ↔ Rx.Matches r w s e :=
+  Rx.matchesFrom_iff r w s e
+
+/-- … in particular for a word that is the whole haystack. -/
+theorem deriv_correct_whole (r : Rx) (w : List UInt8) :
+    Rx.matchesWhole r w = true ↔ Rx.Matches r w true true :=
+  Rx.matchesFrom_iff r w true true
+
+/-- The two laws behind it: `nullable` is "accepts the empty word here", and the derivative
+by `b` read at a position with start flag `s` is the left quotient of the language (after a
+byte the position is not the start any more; the end flag is untouched). -/
+theorem deriv_laws (r : Rx) (s e : Bool) (b : UInt8) (w : List UInt8) :
+    (Rx.nullable r s e = true ↔ Rx.Matches r [] s e) ∧
+    (Rx.Matches (Rx.deriv s b r) w false e ↔ Rx.Matches r (b :: w) s e) :=
+  ⟨Rx.nullable_iff r s e, Rx.deriv_iff s b r w e⟩
+
+/-- `star` is a concatenation of NON-EMPTY matches of its body (empty iterations, possible
+with anchors or nullable bodies, add nothing), and only the first of them can begin at the
+haystack start. -/
+theorem star_nonempty_pieces (r : Rx) (w : List UInt8) (s e : Bool)
+    (h : Rx.Matches (.star r) w s e) :
+    w = [] ∨ ∃ b u v, w = b :: u ++ v ∧ Rx.Matches r (b :: u) s (e && v.isEmpty) ∧
+      Rx.Matches (.star r) v false e :=
+  Rx.star_cases h
+
+/-- **`matches` is an unanchored search.** `Rx.search` (= `Regex::is_match`) holds iff SOME
+substring `mid` of the haystack is in the language, the anchors seeing the true haystack
+boundaries: `mid` begins at the start iff nothing precedes it and ends at the end iff
+nothing follows it. -/
+theorem search_unanchored (r : Rx) (h : List UInt8) :
+    Rx.search r h = true ↔
+      ∃ pre mid post, h = pre ++ mid ++ post ∧ Rx.Matches r mid pre.isEmpty post.isEmpty :=
+  Rx.search_iff r h
+
+/-- `^r` must match at the very beginning, `r$` up to the very end (no multi-line mode: a
+trailing `\n` is not skipped), `^r$` = the whole value is in the language of `r`. -/
+theorem anchors_pin_the_ends (r : Rx) (h : List UInt8) :
+    (Rx.search (.cat .bol r) h = true ↔
+      ∃ mid post, h = mid ++ post ∧ Rx.Matches r mid true post.isEmpty) ∧
+    (Rx.search (.cat r .eol) h = true ↔
+      ∃ pre mid, h = pre ++ mid ∧ Rx.Matches r mid pre.isEmpty true) ∧
+    (Rx.search (.cat .bol (.cat r .eol)) h = true ↔ Rx.Matches r h true true) :=
+  ⟨Rx.search_bol_iff r h, Rx.search_eol_iff r h, Rx.search_bol_eol_iff r h⟩
+
+/-- **Byte-oriented `.`**: the pattern `.` denotes exactly the one-BYTE words other than
+`\n` — so it matches the lone byte `0xff` and never a two-byte UTF-8 character as a unit. -/
+theorem dot_is_any_byte_but_newline (w : List UInt8) (s e : Bool) :
+    Rx.parse ['.'] = some Rx.dot ∧
+    (Rx.Matches Rx.dot w s e ↔ ∃ b : UInt8, w = [b] ∧ b ≠ 10) := by
+  refine ⟨by decide, ?_⟩
+  simp only [Rx.dot, Rx.matches_set, Rx.setMem_dot]
+
+/-- **Classes are byte sets**: a class denotes one-byte words; the byte lies in one of the
+listed ranges iff the class is not negated. Nothing is decoded: `[^a]` contains every byte
+≥ 0x80 and `\n`. -/
+theorem class_is_byte_set (neg : Bool) (rs : Rx.Ranges) (w : List UInt8) (s e : Bool) :
+    Rx.Matches (.set neg rs) w s e ↔
+      ∃ b : UInt8, w = [b] ∧ ((∃ r ∈ rs, r.1 ≤ b ∧ b ≤ r.2) ↔ neg = false) := by
+  simp only [Rx.matches_set, Rx.setMem_iff]
+
+/-- `\xHH` is the single byte `HH` for every `HH` (0x80–0xff too: not the code point U+00HH
+in UTF-8). -/
+theorem hex_escape_is_byte (h1 h2 : Char) (x y : Nat) (hx : Rx.hexVal h1 = some x)
+    (hy : Rx.hexVal h2 = some y) (w : List UInt8) (s e : Bool) :
+    Rx.parse ['\\', 'x', h1, h2] = some (Rx.lit (UInt8.ofNat (x * 16 + y))) ∧
+    (Rx.Matches (Rx.lit (UInt8.ofNat (x * 16 + y))) w s e ↔ w = [UInt8.ofNat (x * 16 + y)]) :=
+  ⟨Rx.parse_hex_escape h1 h2 x y hx hy, Rx.matches_lit⟩
+
+/-- A literal character of the pattern (ASCII or not) denotes exactly its UTF-8 bytes. -/
+theorem literal_char_utf8 (c : Char) (hc : Rx.isMeta c = false) (w : List UInt8) (s e : Bool) :
+    Rx.parse [c] = some (Rx.litChar c) ∧
+    (Rx.Matches (Rx.litChar c) w s e ↔ w = String.utf8EncodeChar c) := by
+  refine ⟨?_, Rx.matches_litChar c w s e⟩
+  have := Rx.parse_plain [c] (by simpa using hc)
+  simpa [Rx.catList] using this
+
+/-- `\d \w \s` are the ASCII classes (no byte ≥ 0x80 is a word character, digit or space),
+`\D \W \S` their complements within the 256 bytes. -/
+theorem perl_classes_ascii (b : UInt8) :
+    Rx.perl 'd' = some [(48, 57)] ∧
+    Rx.perl 'w' = some [(48, 57), (65, 90), (95, 95), (97, 122)] ∧
+    Rx.perl 's' = some [(9, 13), (32, 32)] ∧
+    (Rx.inRanges [(48, 57)] b = true ↔ 48 ≤ b.toNat ∧ b.toNat ≤ 57) ∧
+    (Rx.inRanges [(48, 57), (65, 90), (95, 95), (97, 122)] b = true ↔
+      (48 ≤ b.toNat ∧ b.toNat ≤ 57) ∨ (65 ≤ b.toNat ∧ b.toNat ≤ 90) ∨ b.toNat = 95 ∨
+        (97 ≤ b.toNat ∧ b.toNat ≤ 122)) ∧
+    (Rx.inRanges [(9, 13), (32, 32)] b = true ↔ (9 ≤ b.toNat ∧ b.toNat ≤ 13) ∨ b.toNat = 32) ∧
+    (∀ rs, Rx.perl 'D' = some rs → Rx.inRanges rs b = !Rx.inRanges [(48, 57)] b) ∧
+    (∀ rs, Rx.perl 'W' = some rs →
+      Rx.inRanges rs b = !Rx.inRanges [(48, 57), (65, 90), (95, 95), (97, 122)] b) ∧
+    (∀ rs, Rx.perl 'S' = some rs → Rx.inRanges rs b = !Rx.inRanges [(9, 13), (32, 32)] b) := by
+  refine ⟨by decide, by decide, by decide, Rx.perl_d b, Rx.perl_w b, Rx.perl_s b, ?_, ?_, ?_⟩
+  · intro rs h
+    have : rs = [(0, 47), (58, 255)] := by
+      have h' : Rx.perl 'D' = some [(0, 47), (58, 255)] := by decide
+      rw [h'] at h; exact (Option.some.inj h).symm
+    subst this; exact Rx.perl_D b
+  · intro rs h
+    have : rs = [(0, 47), (58, 64), (91, 94), (96, 96), (123, 255)] := by
+      have h' : Rx.perl 'W' = some [(0, 47), (58, 64), (91, 94), (96, 96), (123, 255)] := by decide
+      rw [h'] at h; exact (Option.some.inj h).symm
+    subst this; exact Rx.perl_W b
+  · intro rs h
+    have : rs = [(0, 8), (14, 31), (33, 255)] := by
+      have h' : Rx.perl 'S' = some [(0, 8), (14, 31), (33, 255)] := by decide
+      rw [h'] at h; exact (Option.some.inj h).symm
+    subst this; exact Rx.perl_S b
+
+/-- **Plain literal patterns are substring search.** A pattern without metacharacters
+(`\ . ^ $ ( ) | * + ? { [`) is accepted, and `matches` then is exactly the reference
+substring search of C10 (`Search.naive`) for the pattern's UTF-8 bytes — over the raw bytes
+of the value, valid UTF-8 or not. -/
+theorem parse_literal (p : List Char) (hp : ∀ c ∈ p, Rx.isMeta c = false) (h : List UInt8) :
+    Rx.matchesOp p h = some (Search.naive h (p.flatMap String.utf8EncodeChar)) := by
+  simp only [Rx.matchesOp, Rx.parse_plain p hp, Option.map_some, Option.some.injEq]
+  rw [Bool.eq_iff_iff, Rx.search_iff, Rx.naive_iff]
+  simp only [Rx.matches_catList_litChars]
+  constructor
+  · rintro ⟨pre, mid, post, rfl, rfl⟩; exact ⟨pre, post, rfl⟩
+  · rintro ⟨pre, post, rfl⟩; exact ⟨pre, _, post, rfl, rfl⟩
+
+/-- Translator tie for the search call: `Regex::is_match` forwards to
+`regex_automata::meta::Regex::is_match` (an unanchored search) on the raw input bytes. -/
+theorem regex_source_shape :
+    Generated.regexSearchCall = "self.regex.is_match(input)" := by decide
+
+/-! Non-vacuity / the documented corner cases, through parser and matcher. -/
+-- `.` matches the lone byte 0xff but not a newline
+example : Rx.matchesOp ['.'] [0xff] = some true := by decide
+example : Rx.matchesOp ['.'] [10] = some false := by decide
+-- `^.$` does not match `é` (two bytes), `^..$` does
+example : Rx.matchesOp ['^', '.', '$'] [0xc3, 0xa9] = some false := by decide
+example : Rx.matchesOp ['^', '.', '.', '$'] [0xc3, 0xa9] = some true := by decide
+-- the literal `é` is its two UTF-8 bytes; `\xe9` is the single byte 0xe9
+example : String.utf8EncodeChar 'é' = [0xc3, 0xa9] := by decide
+example : Rx.matchesOp ['é'] [0x78, 0xc3, 0xa9, 0x79] = some true := by decide
+example : Rx.matchesOp ['\\', 'x', 'e', '9'] [0xc3, 0xa9] = some false := by decide
+example : Rx.matchesOp ['\\', 'x', 'e', '9'] [0xe9] = some true := by decide
+-- `\w` is ASCII: no byte of `é` is a word byte
+example : Rx.matchesOp ['\\', 'w'] [0xc3, 0xa9] = some false := by decide
+example : Rx.matchesOp ['\\', 'W'] [0xc3, 0xa9] = some true := by decide
+-- unanchored; anchors; no multi-line
+example : Rx.matchesOp ['b'] [0x61, 0x62, 0x63] = some true := by decide
+example : Rx.matchesOp ['^', 'b'] [0x61, 0x62, 0x63] = some false := by decide
+example : Rx.matchesOp ['^', 'a', 'b', 'c', '$'] [0x61, 0x62, 0x63, 10] = some false := by decide
+example : Rx.matchesOp ['(', '^', 'a', '|', 'b', ')', '*', 'c', '$'] [0x61, 0x62, 0x63] = some true := by decide
+example : Rx.matchesOp ['(', '^', 'a', '|', 'b', ')', '+', 'c', '$'] [0x62, 0x61, 0x63] = some false := by decide
+-- a class with a quote, a range over high bytes and a negation
+example : Rx.matchesOp ['[', 'a', '"', ']', '+', '$'] [0x22, 0x61, 0x22] = some true := by decide
+example : Rx.matchesOp ['[', '^', '\\', 'x', '8', '0', '-', '\\', 'x', 'f', 'f', ']'] [0x80, 0xfe] = some false := by decide
+-- outside the subset
+example : Rx.parse ['a', '{', '2', '}'] = none := by decide
+example : Rx.parse ['(', '?', 'i', ')', 'a'] = none := by decide
+example : Rx.parse ['a', '*', '?'] = none := by decide
+example : Rx.parse ['\\', 'b'] = none := by decide
+example : Rx.parse ['\\', 'p', 'L'] = none := by decide
+example : Rx.parse ['(', 'a'] = none := by decide
+example : Rx.parse ['[', 'é', ']'] = none := by decide
 
 end WfModel.C11
